@@ -562,6 +562,15 @@ func run[V any](r *engine.Rec, c *cfg[V], maxN int) {
 			}
 			exp := model(c, p, m, content, eq)
 			_, o := apply(c, p, obj, opnd, ranker)
+			// observe after every replayed step, so that anything the object caches is populated along the path
+			rt.Protect(fuelBudget, func() {
+				obj.AsArray()
+				obj.GetSize()
+				it := obj.GetIterator()
+				for it.HasNext() {
+					it.GetNext()
+				}
+			})
 			if o.Panicked {
 				continue // the state is unchanged (was checked when this transition was first executed)
 			}
